@@ -216,5 +216,167 @@ theorem Q_sum_nonanc {ctx : Ctx} {Mb : Nat} {q : Query} {G : MG Name} (hq : QInv
     have : r ∈ anc := anc_closed' hq.wfG hanc (by simpa using hpa) (h.rsub.di r a hr ha hra)
     simp [this] at hpr
 
+theorem sumSafe_true_nonjoint {e : Expr} {r : List Var} (he : Clean e) (hr : r ≠ [])
+    (hnj : ∀ pop c, e ≠ .prob pop c []) : sumSafe e r true = .sum e (sortVars r) := by
+  unfold sumSafe
+  have h1 : (sortVars r).isEmpty = false := by
+    cases hs : sortVars r with
+    | nil => exact absurd hs (sortVars_nonempty hr)
+    | cons a as => rfl
+  simp only [h1, clean_not_zero he, Bool.false_eq_true, if_false, if_true]
+  unfold sumSimplify
+  split
+  · rename_i pop children
+    exact absurd rfl (hnj pop children)
+  · rfl
+
+/-- the joint clause for the current domain gives the value of a joint leaf tagged with that domain -/
+theorem JC.leaf_val {ctx : Ctx} {q : Query} {G : MG Name} {c : List Var} (jc : JC ctx q G c) {c' : List Var}
+    (hc' : ∀ v ∈ c', v.ivs = [] ∧ v.star = none) (hin : ∀ n ∈ vnames c', n ∈ regularNodes G ∨ n ∈ ctx.ign) (σ : Val) :
+    ctx.leaf (some (popVar q.domain)) c' [] σ =
+      sumVars ctx.M.card ((regularNodes G).filter (· ∉ vnames c')) (ctx.M.Q (regularNodes G)) σ := by
+  rw [ctx.S.leaf_eq (some (popVar q.domain)) [] c' [] jc.okW (by
+    intro v hv
+    rw [List.append_nil] at hv
+    exact ⟨(hc' v hv).1, (hc' v hv).2, jc.okN v.name (hin v.name (List.mem_map_of_mem hv))⟩) σ]
+  rw [List.append_nil]
+  show _ / ctx.S.Φ (some (popVar q.domain)) [] [] σ = _
+  rw [ctx.S.nil _ _ jc.okW σ, div_one]
+  exact jc.marg (vnames c') hin σ
+
+theorem JC.adm {ctx : Ctx} {q : Query} {G : MG Name} {c : List Var} (jc : JC ctx q G c) {c' p' : List Var}
+    (hc' : ∀ v ∈ c' ++ p', v.ivs = [] ∧ v.star = none) (hin : ∀ v ∈ c' ++ p', v.name ∈ regularNodes G ∨ v.name ∈ ctx.ign) :
+    ctx.S.Adm (some (popVar q.domain)) c' p' :=
+  ⟨[], jc.okW, fun v hv => ⟨(hc' v hv).1, (hc' v hv).2, jc.okN v.name (hin v hv)⟩⟩
+
+/-- **line 2**: the query handed to the recursion satisfies the invariant again and asks for the same distribution -/
+theorem sound_line2 {ctx : Ctx} {Mb : Nat} {q q' : Query} {G : MG Name} {anc : List Name} (hq : QInv Mb q G)
+    (h : SemInv ctx q G) (hanc : G.ancestorsInclusive q.Y = .ok anc)
+    (hne : (diff' (regularNodes G) anc).isEmpty = false) (hq' : line2 q anc = .ok q') :
+    SemInv ctx q' (G.subgraph (nsort anc)) ∧
+      ∀ σ, Spec ctx.M (regularNodes (G.subgraph (nsort anc))) q'.X q'.Y σ = Spec ctx.M (regularNodes G) q.X q.Y σ := by
+  obtain ⟨hX', hY', hdom, _, hret, _⟩ := line2_shape' hq.look hanc hq'
+  have hV := regularNodes_nodup hq.wfG
+  have hV' : (regularNodes (G.subgraph (nsort anc))).Nodup := regularNodes_nodup (wf_subgraph _ _)
+  have hancV : ∀ v ∈ anc, v ∈ G.nodes := ancestorsInclusive_sub hq.wfG hanc
+  have hYanc : ∀ y ∈ q.Y, y ∈ anc := ancestorsInclusive_self hq.wfG hanc
+  have hmem : ∀ v, v ∈ regularNodes (G.subgraph (nsort anc)) ↔ v ∈ regularNodes G ∧ v ∈ anc :=
+    fun v => mem_regular_subgraph hancV
+  have hRV : ∀ n ∈ diff' (regularNodes G) anc, n ∈ regularNodes G := fun n hn => (mem_diff'.1 hn).1
+  have hrng := h.rng hRV
+  set rs := plainVars (diff' (regularNodes G) anc) with hrs
+  have hRne : rs ≠ [] := plainVars_nonempty (by
+    intro h0; rw [h0] at hne; simp at hne)
+  have goodS : Good ctx.S (sumSafe q.expr rs true) := good_sumSafe ctx.S true h.good hrng
+  have ndS : SumND (sumSafe q.expr rs true) := sumND_sumSafe true h.nd
+  have hQ := Q_sum_nonanc hq h hanc
+  have denS : ∀ σ, denL ctx.M.card ctx.leaf (sumSafe q.expr rs true) σ =
+      ctx.M.Q (regularNodes (G.subgraph (nsort anc))) σ := by
+    intro σ
+    rw [denL_sumSafe ctx.S true h.good hrng σ, ← hQ]
+    rw [sumVars_plainVars_set ctx.M.card (fun n hn => regular_notT (hRV n hn))
+      (xs := (regularNodes G).filter (fun v => !decide (v ∈ anc))) (hV.filter _)
+      (fun v => by simp [mem_diff', List.mem_filter])]
+    exact congrFun (congrArg _ (funext h.est)) σ
+  have rsub' := h.rsub.subgraph hancV
+  have usum' : ∀ v ∈ regularNodes (G.subgraph (nsort anc)), ctx.S.U v := fun v hv => h.usum v ((hmem v).1 hv).1
+  have ign' : ∀ z ∈ ctx.ign, z ∉ regularNodes (G.subgraph (nsort anc)) := fun z hz hz' => h.ign z hz ((hmem z).1 hz').1
+  refine ⟨?_, fun σ => ?_⟩
+  · rcases h.shape with ⟨pop, c, hexpr, jc⟩ | ⟨hnj, hwf⟩
+    · -- the carried expression is a joint
+      have hsub : ∀ v ∈ rs, v.name ∈ c.map (·.name) := by
+        intro v hv
+        obtain ⟨n, hn, rfl⟩ := (mem_plainVars v _).1 hv
+        exact jc.cover n (hRV n hn)
+      rw [hexpr] at hret goodS ndS denS
+      rcases sumSafe_joint_sub (some pop) c rs (fun v hv => (hrng v hv).1) hsub with h1 | ⟨c', hs, hc'c, hnames⟩
+      · rw [h1] at hret goodS ndS denS
+        have he' : q'.expr = .one := by simpa [retag] using hret.symm
+        exact ⟨rsub', he' ▸ goodS, he' ▸ ndS, he' ▸ denS, usum', ign',
+          Or.inr ⟨fun pop c hc => (by rw [he'] at hc; cases hc), (by rw [he']; trivial)⟩⟩
+      · rw [hs] at hret
+        have he' : q'.expr = .prob (some (popVar q.domain)) c' [] := by simpa [retag] using hret.symm
+        have hplain' : ∀ v ∈ c', v.ivs = [] ∧ v.star = none := fun v hv => jc.plain v (hc'c v hv)
+        have hR_notanc : ∀ n ∈ (rs.map (·.name)), n ∈ regularNodes G ∧ n ∉ anc := by
+          intro n hn
+          obtain ⟨v, hv, rfl⟩ := List.mem_map.1 hn
+          obtain ⟨m, hm, rfl⟩ := (mem_plainVars v _).1 hv
+          exact mem_diff'.1 hm
+        have hR_mem : ∀ n, n ∈ regularNodes G → n ∉ anc → n ∈ rs.map (·.name) := by
+          intro n h1 h2
+          exact List.mem_map.2 ⟨Var.plain n, (mem_plainVars _ _).2 ⟨n, mem_diff'.2 ⟨h1, h2⟩, rfl⟩, rfl⟩
+        have jc' : JC ctx q' (G.subgraph (nsort anc)) c' := by
+          refine ⟨hdom ▸ jc.okW, fun v hv => hdom ▸ jc.okN v (hv.elim (fun a => Or.inl ((hmem v).1 a).1) Or.inr), ?_, ?_,
+            hplain', ?_⟩
+          · intro v hv
+            obtain ⟨hv1, hv2⟩ := (hmem v).1 hv
+            exact (hnames v).2 ⟨jc.cover v hv1, fun hr => (hR_notanc v hr).2 hv2⟩
+          · intro n hn
+            obtain ⟨hn1, hn2⟩ := (hnames n).1 hn
+            rcases jc.within n hn1 with hV1 | hI
+            · by_cases ha : n ∈ anc
+              · exact Or.inl ((hmem n).2 ⟨hV1, ha⟩)
+              · exact absurd (hR_mem n hV1 ha) hn2
+            · exact Or.inr hI
+          · intro S hS σ
+            rw [hdom, jc.marg S (fun n hn => (hS n hn).elim (fun a => Or.inl ((hmem n).1 a).1) Or.inr) σ]
+            rw [sumVars_filter_split ctx.M.card ((regularNodes G).filter (· ∉ S)) (fun v => decide (v ∈ anc))]
+            have e1 : sumVars ctx.M.card (((regularNodes G).filter (· ∉ S)).filter (fun v => !decide (v ∈ anc)))
+                (ctx.M.Q (regularNodes G)) =
+                sumVars ctx.M.card ((regularNodes G).filter (fun v => !decide (v ∈ anc))) (ctx.M.Q (regularNodes G)) := by
+              apply sumVars_congr_set ctx.M.card ((hV.filter _).filter _) (hV.filter _)
+              intro v
+              simp only [List.mem_filter, decide_eq_true_eq, Bool.not_eq_true', decide_eq_false_iff_not]
+              constructor
+              · rintro ⟨⟨a, _⟩, b⟩; exact ⟨a, b⟩
+              · rintro ⟨a, b⟩
+                refine ⟨⟨a, fun hs => ?_⟩, b⟩
+                rcases hS v hs with h1 | h1
+                · exact b ((hmem v).1 h1).2
+                · exact h.ign v h1 a
+            rw [e1, hQ]
+            refine congrFun (sumVars_congr_set ctx.M.card ((hV.filter _).filter _) (hV'.filter _) (fun v => ?_) _) σ
+            simp only [List.mem_filter, decide_eq_true_eq, hmem v]
+            constructor
+            · rintro ⟨⟨a, b⟩, c⟩; exact ⟨⟨a, c⟩, b⟩
+            · rintro ⟨⟨a, c⟩, b⟩; exact ⟨⟨a, b⟩, c⟩
+        have hin' : ∀ n ∈ vnames c', n ∈ regularNodes (G.subgraph (nsort anc)) ∨ n ∈ ctx.ign := jc'.within
+        have hadm : ctx.S.Adm (some (popVar q.domain)) c' [] := by
+          have := jc'.adm (c' := c') (p' := []) (by simpa using hplain')
+            (by intro v hv; rw [List.append_nil] at hv; exact hin' v.name (List.mem_map_of_mem hv))
+          rwa [hdom] at this
+        refine ⟨rsub', ?_, ?_, ?_, usum', ign', Or.inl ⟨popVar q.domain, c', he', jc'⟩⟩
+        · rw [he']; exact ⟨trivial, hadm⟩
+        · rw [he']; trivial
+        · intro σ
+          rw [he']
+          show ctx.leaf (some (popVar q.domain)) c' [] σ = _
+          have := jc'.leaf_val hplain' hin' σ
+          rw [hdom] at this
+          rw [this]
+          have hnil : (regularNodes (G.subgraph (nsort anc))).filter (· ∉ vnames c') = [] := by
+            apply List.filter_eq_nil_iff.mpr
+            intro v hv
+            simpa using jc'.cover v hv
+          rw [hnil]
+          rfl
+    · -- the carried expression is not a joint: `Sum.safe` wraps it
+      have hs := sumSafe_true_nonjoint h.good.1 hRne hnj
+      rw [hs] at hret
+      have he' : q'.expr = .sum q.expr (sortVars rs) := by simpa [retag] using hret.symm
+      rw [hs] at goodS ndS denS
+      exact ⟨rsub', he' ▸ goodS, he' ▸ ndS, he' ▸ denS, usum', ign',
+        Or.inr ⟨fun pop c hc => (by rw [he'] at hc; cases hc), (by rw [he']; exact ⟨hwf, fun _ _ => trivial⟩)⟩⟩
+  · rw [hX', hY']
+    apply spec_line2 ctx.sctx (regularNodes G) q.X q.Y _ _ hV h.rsub.nodes hV' (fun v => decide (v ∈ anc))
+    · intro a ha hpa r hr hpr hra
+      have : r ∈ anc := anc_closed' hq.wfG hanc (by simpa using hpa) (h.rsub.di r a hr ha hra)
+      simp [this] at hpr
+    · intro y hy; simpa using hYanc y hy
+    · intro v; rw [hmem v]; simp
+    · intro v hv
+      rw [mem_inter']
+      exact ⟨fun a => a.1, fun a => ⟨a, ((hmem v).1 hv).2⟩⟩
+
 end Trso
 end Y0
